@@ -200,12 +200,13 @@ def match_known(known, rec):
 
 # ----------------------------------------------------------------------- main entry
 def write_replay(pid, modname, rec, level):
-    os.makedirs(os.path.join(ROOT, 'replays'), exist_ok=True)
+    rdir = os.environ.get('VERIF_REPLAY_DIR') or os.path.join(ROOT, 'replays')
+    os.makedirs(rdir, exist_ok=True)
     body = {'property': pid, 'module': modname, 'level': level, 'job': rec['job'],
             'values': rec['values'], 'label': rec['label'], 'info': rec.get('replay_info'),
             'signature': rec.get('signature')}
     digest = hashlib.sha256(json.dumps(body, sort_keys=True, default=str).encode()).hexdigest()[:12]
-    path = os.path.join(ROOT, 'replays', '%s-%s.json' % (pid, digest))
+    path = os.path.join(rdir, '%s-%s.json' % (pid, digest))
     with open(path, 'w') as fh:
         json.dump(body, fh, indent=1, default=str)
     return path
@@ -259,10 +260,7 @@ def run_check(modname, tier, seed):
         r = run_job(mod, job, clevel, seed, timeout_ms, None, canary=True, max_viol=1)
         cov.stop()
         canary_ok = any(v.get('replayed') for v in r['violations'])
-        if not canary_ok:
-            print('HARNESS-ERROR canary silent: the deliberately wrong oracle was not refuted '
-                  '(%d violations, none replayed)' % len(r['violations']))
-            return EXIT_HARNESS
+        canary_n = len(r['violations'])
 
     total = Stats()
     funcs = set(cov.seen)
@@ -357,6 +355,12 @@ def run_check(modname, tier, seed):
     if errors and code == EXIT_OK:
         print('HARNESS-ERROR worker raised:\n%s' % errors[0]['error'][-3000:])
         code = EXIT_HARNESS
+    if canary_ok is False and code == EXIT_OK:
+        # (a silent canary next to a replayed violation is reported as the violation: a change to
+        # the code under test may happen to agree with the deliberately wrong oracle)
+        print('HARNESS-ERROR canary silent: the deliberately wrong oracle was not refuted '
+              '(%d violations, none replayed)' % canary_n)
+        code = EXIT_HARNESS
     missing_w = [w for w in getattr(mod, 'WITNESSES', []) if total.witnesses.get(w, 0) == 0]
     if missing_w and code == EXIT_OK:
         fully = all(lr['exhaustive'] for lr in level_reports)
@@ -403,8 +407,9 @@ def run_check(modname, tier, seed):
         'wall_s': round(wall, 2),
         'violations': violations_reported,
     }
-    os.makedirs(os.path.join(ROOT, 'evidence'), exist_ok=True)
-    with open(os.path.join(ROOT, 'evidence', '%s.json' % pid), 'w') as fh:
+    evdir = os.environ.get('VERIF_EVIDENCE_DIR') or os.path.join(ROOT, 'evidence')
+    os.makedirs(evdir, exist_ok=True)
+    with open(os.path.join(evdir, '%s.json' % pid), 'w') as fh:
         json.dump(ev, fh, indent=1, default=str)
     print('%s %s: levels=%s structures=%d paths=%d obligations=%d discharged=%d unknown=%d '
           'solver_calls=%d solver_s=%.1f wall=%.1fs exit=%d' % (
